@@ -11,7 +11,7 @@ CONSTANTS
   MaxOps = 10
   MaxSnaps = 2
   MaxRestarts = 2
-INVARIANTS NoTombLive GroupsFine EpochsFine
+INVARIANTS NoTombLive NoRecLive GroupsFine EpochsFine
 
 
 CHECK_DEADLOCK FALSE
